@@ -1,4 +1,5 @@
 import PycsepVerif.Proto
+import PycsepVerif.RealOps
 import PycsepVerif.Model.Sampler
 import PycsepVerif.Model.SamplerExt
 import PycsepVerif.Model.SamplerRng
@@ -100,6 +101,24 @@ def handle : List String → Option String
   | ["c06_seeded_l", rs, en, k, s] =>
       some (match parseList? parseRat? rs, parseRat? en, k.toNat?, s.toNat? with
       | some rs, some en, some k, some s => (match SamplerRng.lTestSeeded rs en k s with
+         | some arrs => if arrs.isEmpty then "-" else
+             ";".intercalate (arrs.map (fun p => s!"{p.1}:{showList toString p.2}"))
+         | none => "exception")
+      | _, _, _, _ => "bad-op")
+  -- c06_poisson <mean bits> <seed> <n> : the first n numbers of `numpy.random.seed(seed); numpy.random.poisson(mean)` (PTRS from 10 on)
+  | ["c06_poisson", lam, s, n] => some (match parseFloat? lam, s.toNat?, n.toNat? with
+      | some lam, some s, some n =>
+        let rec go : Nat → SamplerRng.MT → List Nat → List Nat
+          | 0, _, acc => acc.reverse
+          | k + 1, st, acc => match SamplerRng.poissonFloat lam st with
+              | some (x, st) => go k st (x :: acc)
+              | none => acc.reverse
+        showList toString (go n (SamplerRng.seed s) [])
+      | _, _, _ => "bad-op")
+  -- c06_seeded_lf <rates> <mean bits> <nsim> <seed> : L-test with seed= for ANY forecast mean
+  | ["c06_seeded_lf", rs, lam, k, s] =>
+      some (match parseList? parseRat? rs, parseFloat? lam, k.toNat?, s.toNat? with
+      | some rs, some lam, some k, some s => (match SamplerRng.lTestSeededF rs lam k s with
          | some arrs => if arrs.isEmpty then "-" else
              ";".intercalate (arrs.map (fun p => s!"{p.1}:{showList toString p.2}"))
          | none => "exception")
